@@ -531,3 +531,11 @@ _quick("C06", "C06_expirewake", _EXPWAKE, ["-witness", "5"], reach=["end"])
 _quick("C04", "C06_expirewake", "(also under C06) " + _EXPWAKE, ["-witness", "5"], reach=["end"])
 _quick("C17", "C17_cancelafter", "a holder and 2..3 queued requests of which one that is not the head times out (T = 2 s; its dead entry stays queued behind the live head); an UNLOCK with the cancel-wait flag then names the timed-out LockId or a live one: after every event WaitCount equals the number of queued requests not yet answered; the holder unlocks, the live ones are granted and released: WaitCount and LockedCount are back to zero, no request answered twice", ["-witness", "5"], reach=["end", "cancel-dead"])
 _quick("C19", "C19_flowobject", "ONE client.MaxConcurrentFlow object shared by several callers (it caches one Lock built by whichever of Acquire / Release is called first): n = 1..2 and priority 0..3 symbolic, first call Acquire or a defensive Release, then every program of 4 calls from {Acquire on the shared object, Acquire on a fresh object, Release on the shared object}: never more than n inside", ["-witness", "10"], reach=["end", "release-first"])
+
+# well-formed frames under C13: for these harnesses no crash site is recorded, so ANY crash is a violation
+# (the hostile-frame harnesses C13_* key their recorded crash family by source line, which can hide a new
+# cause at a recorded line: seed C13l)
+_MIXED = "value operations of MISMATCHED kinds, every frame built by the real client-side constructors: every sequence of 3 operations from {SET (1..3 or 8 symbolic bytes), INCR (symbolic), APPEND, SHIFT (any 32-bit length), PUSH, POP 1..3, UNSET} in any order (INCR on a 2-byte value, POP on a shifted array ...): the server does not crash (every run-time check is an obligation) and answers each request exactly once; the resulting value is not specified and not asserted"
+_quick("C13", "C15_mixedkinds", _MIXED, ["-witness", "20"], reach=["end"])
+_quick("C13", "C15_props", "(also under C15) every sequence of 3 kind-compatible value operations with or without property blocks, well-formed frames: every run-time check on these paths is an obligation", ["-witness", "20"], reach=["end"])
+_quick("C13", "C15_pipeline", "(also under C15) PIPELINE frames of well-formed sub-operations: every run-time check on these paths is an obligation", ["-witness", "5"], reach=["end"])
